@@ -461,7 +461,13 @@ class Interp(object):
         if isinstance(fn, type):
             return self.instantiate(fn, args, kwargs)
         if isinstance(fn, types.MethodType):
-            # bound method of a real object (e.g. concrete dict.get)
+            # bound method of a real object: python-source methods are interpreted with the real object as self
+            f0 = fn.__func__
+            if isinstance(f0, types.FunctionType) and not (all(self.is_plain(a) for a in args) and self.is_plain(fn.__self__)):
+                node, path = funcdef_for_real(f0)
+                if node is not None and self.may_inline(f0, path):
+                    clo = Closure(node, None, inspect.unwrap(f0).__globals__, self.qual_of(f0), path)
+                    return self.call_closure(clo, [fn.__self__] + list(args), kwargs)
             return self.native_call(fn, args, kwargs)
         if isinstance(fn, types.FunctionType):
             node, path = funcdef_for_real(fn)
@@ -475,7 +481,7 @@ class Interp(object):
         if self.inline_ok is not None:
             return self.inline_ok(fn, path)
         p = os.path.realpath(path)
-        return "/allmydata/" in p or "/pyutil/" in p
+        return "/allmydata/" in p or "/pyutil/" in p or "/verif/shims/" in p
 
     def is_plain(self, v):
         if v is None or isinstance(v, (int, float, str, bytes, bool, type(Ellipsis))):
@@ -954,7 +960,7 @@ class Interp(object):
         if isinstance(v, SBytes):
             n = concrete_int(v.length)
             if n is not None:
-                return [z3.Select(v.arr, i) for i in range(n)]
+                return [v.at(i) for i in range(n)]
         if hasattr(v, "__iter__") and self.is_plain(v):
             return list(v)
         if isinstance(v, (types.GeneratorType, map, filter, zip, enumerate)) or type(v).__name__.endswith("iterator") \
